@@ -577,7 +577,9 @@ fn classify_missing(case: &WorldCase, vid: usize, prop: &str) -> String {
 pub fn c05(ctx: &CheckCtx) -> i32 {
     let cfg = default_gen_config();
     if ctx.replay.is_some() {
-        return replay_with(ctx, &|_s, bytes| c05_case(bytes, &mut Stats::default(), false, &cfg));
+        let mut tag_cfg = default_gen_config();
+        tag_cfg.query.tag_bias = true;
+        return replay_with(ctx, &|sub, bytes| c05_case(bytes, &mut Stats::default(), false, if sub == "c05-tags" { &tag_cfg } else { &cfg }));
     }
     let mut report = Report::new(
         ctx,
@@ -586,9 +588,15 @@ pub fn c05(ctx: &CheckCtx) -> i32 {
          that stems from a tag (same component / imported into a fold / operand of a fold-count filter) and at least one \
          resolve_property call happened; distinct by case hash.",
     );
-    let cases = ctx.cases(200_000, 3_000_000);
+    let cases = ctx.cases(100_000, 2_000_000);
     let res = search(ctx, "c05", cases, WORLD_MIN_LEN, WORLD_MAX_LEN, |b, s, counting| c05_case(b, s, counting, &cfg));
     report.absorb(res, &|b| render_world_case(b, &cfg));
+    // tag-biased worlds (every operator with tag operands, several tag filters per property, fold-count tags)
+    let mut tag_cfg = default_gen_config();
+    tag_cfg.query.tag_bias = true;
+    let cases = ctx.cases(60_000, 1_000_000);
+    let res = search(ctx, "c05-tags", cases, WORLD_MIN_LEN, WORLD_MAX_LEN, |b, s, counting| c05_case(b, s, counting, &tag_cfg));
+    report.absorb(res, &|b| render_world_case(b, &tag_cfg));
     report.finish()
 }
 
